@@ -12,7 +12,7 @@ def register(add, NOTE):
         "Theorems: a lumped load on the feed pulse adds exactly z to V/I for every nonsingular matrix (grounded pulse included); loads "
         "enter only their own diagonal entry and add up; zero load is a no-op; Laplace load = ratio of polynomials in s; RLC = series, "
         "trap = parallel circuit; insulation with eps_r=1 is a no-op (incl. equivalent radius); conductivity/resistivity interchange; "
-        "distributed loads = per-length impedance x real conductor length of the pulse. Leaf formulas re-extracted every run; padding, "
+        "distributed loads = per-length impedance x real conductor length of the pulse; attachment of distributed loads (Model/Attach.v, tied by stage `attach` to the real load lists): every pulse is on exactly one load list as soon as one of its halves lies on a loaded object and every half of loaded conductor is charged exactly once, the one-sided rule refuted. Leaf formulas re-extracted every run; padding, "
         "per-pulse sums and every load class tied by correspondence at two frequencies on the same object; circuit/metamorphic oracle.",
         "Rocq proof + extracted formulas + correspondence", "DESIGN.md §6 C08",
         note=NOTE + " scipy.special.jv is trusted for the Bessel ratio passed to the model; the sigma -> infinity skin-effect limit is measured by the oracle, not proved.")
@@ -42,7 +42,8 @@ def register(add, NOTE):
         note=NOTE + " PARTIAL as stated in the level text.")
 
     add("C12",
-        "Theorems for every list of objects and every numeric instance (binary64 included): pulse count = sum over objects of "
+        "Theorems for every list of objects and every numeric instance (binary64 included; the ground predicate is extracted from "
+        "Geobj.compute_ground, evaluated inside every model case, and proved to mean |z| < eps on either side of the plane): pulse count = sum over objects of "
         "(segments-1) + [end grounded] + [end joined] with each joined end owned by exactly one EARLIER end (a junction of k ends has k-1 "
         "pulses); numbering without gaps in object order (q-th pulse of object i is global start_i + q, belongs to i); interior pulses sit on "
         "the joint of the two segments they are reported with; an end is joined exactly when it is identical to / within the tolerance of "
